@@ -191,6 +191,13 @@ class FairAtQuiescence(object):
 
     def choose(self, ctl, options):
         if options and all(o.fire for o in options):
+            # a timed Queue.put is pending inside enqueue() (bounded queue, pool lock held): its expiry is
+            # what lets the pool go on, so a client's result()/join() time-out expiring first would say
+            # nothing about the pool ("is executed once the pool is running" is about eventual execution).
+            # The pool's own timed put therefore expires before any client's wait.
+            puts = [i for i, o in enumerate(options) if o.label.startswith("Queue.put")]
+            if puts:
+                return self.rng.choice(puts)
             cl = [i for i, o in enumerate(options) if o.name.startswith("c")]
             if cl and self.rng.random() < 0.7:
                 return self.rng.choice(cl)
